@@ -20,6 +20,7 @@ def r7(ctx):
 
 
 RULES = {
+    "C09.R8": lambda ctx: __import__("rules.typesrules", fromlist=["x"]).key_agreement(ctx, "C09.R8"),
     "C09.RL": lambda ctx: __import__("rules.common", fromlist=["x"]).loop_exit_rule(ctx, "C09.RL", {'types::SourceMap::rewrite_with_mapping': 0, 'builder::SourceMapBuilder::strip_prefixes': 1}),
     "C09.R1": lambda ctx: bldrules.add_with_id(ctx, "C09.R1"),
     "C09.R2": lambda ctx: bldrules.interning(ctx, "C09.R2"),
